@@ -379,12 +379,12 @@ class RecList(list):
         return list.__reversed__(self)
 
 
-def measure_append(spec, stream, n):
-    """(#calls into indicator code, #distinct candles read through the list) for the append of candle n"""
+def measure_append(spec, stream, n, k=1, with_manager=False):
+    """(#calls into indicator code, #distinct candles read through the list) for the append of candles n .. n+k-1"""
     cands = RecList(cm.mk_candles(stream[:n]))
-    ind = specs.build_indicator(spec, cands, with_manager=False)
+    ind = specs.build_indicator(spec, cands, with_manager=with_manager)
     ind.calculate()
-    new = cm.mk_candles(stream[n : n + 1])
+    new = cm.mk_candles(stream[n : n + k])
     count = [0]
 
     def prof(frame, event, arg):
@@ -405,14 +405,16 @@ def measure_append(spec, stream, n):
 def c07_check(scn):
     spec, stream = scn["spec"], scn["stream"]
     # the short run is a SUFFIX of the long one, so both appends see the same recent candles
-    total = len(stream) - 1
-    res = [measure_append(spec, stream[total - n :], n) for n in scn["lengths"]]
+    k = scn.get("chunk", 1)
+    total = len(stream) - k
+    mgr = bool(scn.get("with_manager"))
+    res = [measure_append(spec, stream[total - n :], n, k, mgr) for n in scn["lengths"]]
     base_calls, base_reach = res[0]
     for n, (calls, reach) in zip(scn["lengths"][1:], res[1:]):
         if calls > base_calls * 1.02 + 3:
             return {"clause": "work-grows", "observed": {"n": scn["lengths"], "calls": [r[0] for r in res]},
                     "expected": "number of calls into indicator code per append independent of history length"}
-        if reach > base_reach + 2:
+        if reach > base_reach + 2 and not mgr:   # with a timeframe the manager itself re-walks the list (outside the property)
             return {"clause": "window-grows", "observed": {"n": scn["lengths"], "candles_read": [r[1] for r in res]},
                     "expected": "number of distinct candles read per append independent of history length"}
     return None
@@ -427,8 +429,18 @@ def c07_case(rng, idx, params):
     lengths = params.get("lengths", [120, 600])
     # a stressing style for the kind half of the time (e.g. a counted condition that never breaks: the streak grows with the history)
     style = gen.style_for(rng, spec["kind"], prob=0.5) or rng.choice(["walk", "jumpy", "ints", "allzerovol", "flat", "zerovol", "repeat", "rising", "falling"])
-    stream, meta = gen.gen_stream(rng, max(lengths) + 1, price_style=style, ts_style="regular")
-    scn = {"spec": spec, "stream": stream, "lengths": lengths}
+    chunk = rng.choice([1, 1, 1, 2, 2, 3])
+    stream, meta = gen.gen_stream(rng, max(lengths) + chunk, price_style=style, ts_style="regular", step=60)
+    scn = {"spec": spec, "stream": stream, "lengths": lengths, "chunk": chunk}
+    if rng.random() < 0.25 and spec["kind"] != "AMORPH":
+        # on a gap-filling timeframe: the appended candle(s) arrive after a hole of a few buckets, so the manager inserts several
+        # candles in front of them and MORE THAN ONE candle is pending when the indicator resumes
+        spec = dict(spec, tf=rng.choice(["T1", "T2"]), fill=True)
+        gap = rng.choice([2, 3, 5]) * 120
+        stream = stream[:-chunk] + [((c[0] + gap),) + tuple(c[1:]) for c in stream[-chunk:]]
+        scn = {"spec": spec, "stream": stream, "lengths": lengths, "chunk": chunk, "with_manager": True}
+    meta["chunk"] = chunk
+    meta["fill_gap"] = bool(scn.get("with_manager"))
     try:
         bad = c07_check(scn)
     except Exception as e:
@@ -780,13 +792,13 @@ def c10_rounded_replay(w):
 # ------------------------------------------------------------------------------------ C07 inside a Hexital (inputs that are other readings)
 
 
-def measure_hexital_append(members, stream, n):
+def measure_hexital_append(members, stream, n, k=1):
     from hexital.core.hexital import Hexital
 
     cands = RecList(cm.mk_candles(stream[:n]))
-    hx = Hexital("H", cands, [specs.build_indicator(sp, [], with_manager=False) for sp in members])
+    hx = Hexital("H", cands, [specs.build_indicator(sp, [], with_manager=bool(sp.get("tf"))) for sp in members])
     hx.calculate()
-    new = cm.mk_candles(stream[n : n + 1])
+    new = cm.mk_candles(stream[n : n + k])
     count = [0]
 
     def prof(frame, event, arg):
@@ -803,14 +815,16 @@ def measure_hexital_append(members, stream, n):
 
 
 def c07_hexital_check(scn):
-    total = len(scn["stream"]) - 1
-    res = [measure_hexital_append(scn["members"], scn["stream"][total - n :], n) for n in scn["lengths"]]
+    k = scn.get("chunk", 1)
+    total = len(scn["stream"]) - k
+    has_tf = any(m.get("tf") for m in scn["members"])
+    res = [measure_hexital_append(scn["members"], scn["stream"][total - n :], n, k) for n in scn["lengths"]]
     base_calls, base_reach = res[0]
     for calls, reach in res[1:]:
         if calls > base_calls * 1.02 + 3:
             return {"clause": "work-grows", "observed": {"n": scn["lengths"], "calls": [r[0] for r in res]},
                     "expected": "number of calls into indicator code per append independent of history length"}
-        if reach > base_reach + 2:
+        if reach > base_reach + 2 and not has_tf:   # a timeframe member's manager re-walks its own list (outside the property)
             return {"clause": "window-grows", "observed": {"n": scn["lengths"], "candles_read": [r[1] for r in res]},
                     "expected": "number of distinct candles read per append independent of history length"}
     return None
@@ -833,9 +847,15 @@ def c07_hexital_case(rng, idx, params):
                                           {"kind": "STDEV", "period": 6}, {"kind": "SMA", "period": 4}]), input=nm, round=4)]
     else:
         members = [specs.gen_spec(rng) for _ in range(rng.randint(2, 3))]
+    chunk = rng.choice([1, 1, 2])
+    if k >= 0.8 or rng.random() < 0.35:
+        # members on collapsing timeframes of their own (one-minute feed): the Hexital must not redo their history on an append
+        for m in rng.sample(members, rng.randint(1, len(members))):
+            if m["kind"] != "AMORPH" and not str(m.get("input", "close")).count("."):
+                m["tf"] = rng.choice(["T2", "T3", "T5"])
     lengths = params.get("lengths", [150, 600])
-    stream, meta = gen.gen_stream(rng, max(lengths) + 1, price_style=rng.choice(["walk", "rising", "falling", "jumpy"]), ts_style="regular")
-    scn = {"members": members, "stream": stream, "lengths": lengths}
+    stream, meta = gen.gen_stream(rng, max(lengths) + chunk, price_style=rng.choice(["walk", "rising", "falling", "jumpy"]), ts_style="regular", step=60)
+    scn = {"members": members, "stream": stream, "lengths": lengths, "chunk": chunk}
     try:
         bad = c07_hexital_check(scn)
     except Exception:
